@@ -3,6 +3,7 @@
 # (names ending in -h are harmless rewrites: the check must stay quiet)
 # records the verdict in /verif/seeded/RESULTS.tsv, and restores /repo (git checkout -- .).
 cd /verif
+export VERIF_EVIDENCE_DIR=$(mktemp -d /tmp/seeded-evidence.XXXXXX); trap 'rm -rf "$VERIF_EVIDENCE_DIR"' EXIT
 names="$@"; [ -z "$names" ] && names=$(ls seeded | grep -E '^C[0-9]+-[a-z]$')
 for n in $names; do
   pid=${n%%-*}
@@ -11,10 +12,10 @@ for n in $names; do
   git -C /repo checkout -- . && git -C /repo clean -fdq
   v=$(echo "$out" | grep -E "^VIOLATION" | head -1)
   kind="MISSED"
-  case $n in *-h|*-v) kind="quiet(ok)";; esac
+  case $n in *-h|*-v|*-y) kind="quiet(ok)";; esac
   if [ $rc -ne 0 ] && [ -n "$v" ]; then
     if echo "$v" | grep -q "no-failing-input-found"; then kind="detected(no-failing-input-found)"; else kind="detected(with failing input)"; fi
-    case $n in *-h|*-v) kind="ALARM-ON-HARMLESS:$kind";; esac
+    case $n in *-h|*-v|*-y) kind="ALARM-ON-HARMLESS:$kind";; esac
   fi
   w=$(echo "$out" | grep -E "^(WITNESS|BROKEN)" | head -1 | cut -c1-220 | tr '\t' ' ')
   echo -e "$n\t$pid\t$kind\t$w"
